@@ -136,6 +136,23 @@ Theorem C03_attribute_statement_refines_model : forall reqid acs issuer audience
        map attr_of_dval l = attrs_of u).
 Proof. exact success_refines. Qed.
 
+(** REFINEMENT of the whole Success message: the abstract message of C03_fields is what the document built by the translated
+    programs abstracts to -- request ID (Response and subject confirmation), consumer URL (Destination and Recipient, absent
+    iff empty), entity ID as the only audience, user name as NameID, the model's attribute list -- for every stored request,
+    entity ID and user record *)
+Theorem C03_response_refines_model : forall rec ent issuer u sg id1 id2 rest issue until,
+  let M := {| m_in_response_to := sr_reqid rec; m_destination := sr_acs rec; m_audience := ent; m_resp := CSuccess u sg |} in
+  built_sat "makeSuccessfulResponse" (Some (response_rec (sr_reqid rec) (sr_acs rec) issuer ent)) [user_rec u; DStr (b "f"); DNil] (id1 :: id2 :: rest) issue until
+    (fun d r => r = rest /\
+       opt_str (at_ d ["InResponseTo"%string]) = m_in_response_to M /\ opt_str (dget d (sc_data ++ [PField "InResponseTo"])) = m_in_response_to M /\
+       opt_str (at_ d ["Destination"%string]) = m_destination M /\ opt_str (dget d (sc_data ++ [PField "Recipient"])) = m_destination M /\
+       (at_ d ["Destination"%string] = None <-> m_destination M = []) /\
+       dget d [PField "Assertion"; PField "Conditions"; PField "AudienceRestriction"; PIndex 0; PField "Audience"] = Some (DList [DStr (m_audience M)]) /\
+       opt_str (at_ d ["Assertion"; "Subject"; "NameID"; "Text"]%string) = nameid_of u /\
+       exists l, dget d [PField "Assertion"; PField "AttributeStatement"; PIndex 0; PField "Attribute"] = Some (DList l) /\
+                 map attr_of_dval l = attrs_of u).
+Proof. exact success_message_refines. Qed.
+
 Print Assumptions C03_fields.
 Print Assumptions C03_attributes.
 Print Assumptions C03_wire_xml.
@@ -148,3 +165,4 @@ Print Assumptions C03_built_attributes.
 Print Assumptions C03_built_attributes_any_custom.
 Print Assumptions C03_attribute_statement_any_custom.
 Print Assumptions C03_attribute_statement_refines_model.
+Print Assumptions C03_response_refines_model.
